@@ -22,7 +22,13 @@ def iter_games(batch, pid, emit_start):
 
 def limit_for(an):
     n, m = an.n, games.n_transitions(an.gd)
-    tmax = max(an.tmax) if an.stopping else 5000
+    if an.stopping and an.finals_absorbing:
+        try:
+            tmax = an.tmax_solve
+        except OracleInconclusive:
+            tmax = max(max(an.tmax), 5000)
+    else:
+        tmax = max(an.tmax) if an.stopping else 5000
     return monitors.step_limit(n, m, tmax)
 
 
